@@ -59,7 +59,7 @@ func waitCommand(args []*variable.Value) <-chan error {
 	}
 	ch := make(chan error, 1)
 	go func() {
-		time.Sleep(time.Duration(*duration.Number) * time.Second)
+		time.Sleep(time.Duration(*duration.Number * float64(time.Second)))
 		ch <- nil
 	}()
 	return ch
